@@ -216,7 +216,10 @@ pub fn g_j(r: &Recipe, lim: Limits) -> (Vec<u8>, &'static str) {
                     }
                 }
             } else {
-                let c = gen::mixed(fmt, r, lim);
+                // decorrelate the family choice from this function's own class selector (both read sel[0])
+                let mut rm = r.clone();
+                rm.sel[0] = gen::mix(r.a ^ r.b.rotate_left(17)) as u16;
+                let c = gen::mixed(fmt, &rm, lim);
                 // optional leading zeros on the integer / trailing zeros on the fraction
                 if r.k[1] % 3 == 0 {
                     out.extend(std::iter::repeat(b'0').take(1 + (r.k[1] as usize >> 4) % 4));
@@ -445,7 +448,7 @@ pub fn check_recipe(r: &Recipe, lim: Limits, stats: &mut Stats) -> Result<(), Fa
 }
 
 pub fn run(ctx: &Ctx) -> i32 {
-    let lim: Limits = ctx.tier.pick(Limits { long: 1_500, huge: 5_000 }, Limits { long: 10_000, huge: 100_000 });
+    let lim: Limits = ctx.tier.pick(Limits { long: 1_500, huge: 20_000 }, Limits { long: 10_000, huge: 100_000 });
     let mut rep = Report::new(
         "All seven front-end copies in the repository (examples/simple.rs, fuzz/fuzz_targets/parse.rs, \
          tests/integration_tests.rs, etc/correctness/test-parse-golang/main.rs whole; the front-end functions of \
